@@ -23,7 +23,9 @@
 //!   'e' string the probe finds at the AT_EXECFN address of that auxv (empty record + flag: [0] | [1]+bytes)
 //!   per 'P' request: 'B' u64 load base (AT_PHDR - link-time address of the program headers), then
 //!             'p' N x u64: the 8-byte words found at base + address (how the start-up code left relocated slots)
-//!   'T' 6 x i64: clock_gettime(CLOCK_MONOTONIC) syscall, MonotonicInstant::now(), syscall again (sec, nsec each)
+//!   'T' 18 x i64: three brackets (sec, nsec each) of system call, library reading, system call again:
+//!       CLOCK_MONOTONIC around MonotonicInstant::now(), CLOCK_MONOTONIC around Instant::now(),
+//!       CLOCK_REALTIME around SystemTime::now()
 //!   'Z' end marker
 //! Values go to the wire through `rusl::unistd::write` loops directly from the memory the API returned.
 #![no_std]
@@ -302,14 +304,31 @@ pub fn main() -> i32 {
         rec(b'p', &words);
     }
 
-    // ---- clock: the (possibly vDSO) path bracketed by two real system calls
-    let Ok(t0) = rusl::time::clock_get_time(ClockId::CLOCK_MONOTONIC) else { die(96) };
-    let now = tiny_std::time::MonotonicInstant::now();
-    let Ok(t1) = rusl::time::clock_get_time(ClockId::CLOCK_MONOTONIC) else { die(96) };
-    let inst = now.as_instant();
-    let tn: &rusl::platform::TimeSpec = inst.as_ref();
-    let mut t = [0u8; 48];
-    for (j, v) in [t0.seconds(), t0.nanoseconds(), tn.seconds(), tn.nanoseconds(), t1.seconds(), t1.nanoseconds()].iter().enumerate() {
+    // ---- clocks: the (possibly vDSO) paths, each bracketed by two real system calls on the clock it stands for
+    let mut vals: Vec<i64> = Vec::with_capacity(18);
+    {
+        let Ok(t0) = rusl::time::clock_get_time(ClockId::CLOCK_MONOTONIC) else { die(96) };
+        let now = tiny_std::time::MonotonicInstant::now();
+        let Ok(t1) = rusl::time::clock_get_time(ClockId::CLOCK_MONOTONIC) else { die(96) };
+        let inst = now.as_instant();
+        let tn: &rusl::platform::TimeSpec = inst.as_ref();
+        vals.extend_from_slice(&[t0.seconds(), t0.nanoseconds(), tn.seconds(), tn.nanoseconds(), t1.seconds(), t1.nanoseconds()]);
+    }
+    {
+        let Ok(t0) = rusl::time::clock_get_time(ClockId::CLOCK_MONOTONIC) else { die(96) };
+        let inst = tiny_std::time::Instant::now();
+        let Ok(t1) = rusl::time::clock_get_time(ClockId::CLOCK_MONOTONIC) else { die(96) };
+        let tn: &rusl::platform::TimeSpec = inst.as_ref();
+        vals.extend_from_slice(&[t0.seconds(), t0.nanoseconds(), tn.seconds(), tn.nanoseconds(), t1.seconds(), t1.nanoseconds()]);
+    }
+    {
+        let Ok(t0) = rusl::time::clock_get_time(ClockId::CLOCK_REALTIME) else { die(96) };
+        let d = tiny_std::time::SystemTime::now().duration_since_unix_time();
+        let Ok(t1) = rusl::time::clock_get_time(ClockId::CLOCK_REALTIME) else { die(96) };
+        vals.extend_from_slice(&[t0.seconds(), t0.nanoseconds(), d.as_secs() as i64, i64::from(d.subsec_nanos()), t1.seconds(), t1.nanoseconds()]);
+    }
+    let mut t = [0u8; 144];
+    for (j, v) in vals.iter().enumerate() {
         t[j * 8..j * 8 + 8].copy_from_slice(&v.to_le_bytes());
     }
     rec(b'T', &t);
